@@ -36,7 +36,8 @@ TextKey(o) == Cs1(o.kpfx) \o <<"t", "e", "x", "t">>
 SeqKeyC == <<"_", "s", "e", "q">>
 FoldName(o, cs) == LET s == IF o.snake THEN Snake(cs) ELSE cs IN IF o.lower THEN ToLower(s) ELSE s
 ElemKey(o, nm) == FoldName(o, nm.l)                     \* local name only: the prefix is dropped
-AttrKey(o, nm) == Cs1(o.apfx) \o FoldName(o, nm.l)      \* (prefixes contain no upper-case letters)
+\* snake-casing applies to the attribute's local name, lower-casing to the whole key (prefix included)
+AttrKey(o, nm) == LET k == Cs1(o.apfx) \o (IF o.snake THEN Snake(nm.l) ELSE nm.l) IN IF o.lower THEN ToLower(k) ELSE k
 
 \* cast with the default flags (float, bool) over the texts the configs use; C14 has the full chain
 BigNum == <<"1", "6", "7", "7", "7", "2", "1", "7">>     \* 2^24 + 1: exact as float64, not as float32
